@@ -80,7 +80,10 @@ func checkC15(cx *Ctx, r *Report) {
 	sort.Slice(fns, func(i, j int) bool { return w.FuncKey(fns[i]) < w.FuncKey(fns[j]) })
 	// receivers of methods callable from outside on per-request objects (models.AttributeSetter on *Attributes)
 	setterRecv := func(l string) bool {
-		return strings.HasPrefix(l, "param:provider.(*Attributes).")
+		return strings.HasPrefix(l, "param:provider.(*Attributes).") && (strings.Contains(l, "/#0.") || strings.HasSuffix(l, "/#0") || strings.Contains(l, "/#0["))
+	}
+	setterArg := func(l string) bool {
+		return strings.HasPrefix(l, "param:provider.(*Attributes).") && !setterRecv(l)
 	}
 	classify := func(l string) (shared bool, why string) {
 		switch {
@@ -94,6 +97,8 @@ func checkC15(cx *Ctx, r *Report) {
 			return false, ""
 		case setterRecv(l):
 			return false, ""
+		case setterArg(l):
+			return true, "a value storage handed to the attribute setter (" + l + "), which storage may share between users"
 		case strings.HasPrefix(l, "global:"):
 			return true, "the package variable " + strings.TrimPrefix(l, "global:")
 		case strings.HasPrefix(l, "ext:iface:provider."), strings.HasPrefix(l, "ext:(*sync."), strings.HasPrefix(l, "dyncall:"):
@@ -104,6 +109,37 @@ func checkC15(cx *Ctx, r *Report) {
 			return true, "provider-wide state reached through " + strings.TrimPrefix(l, "param:")
 		}
 		return true, "an object of unknown origin (" + l + ")"
+	}
+	// localOnly: judged from the enclosing function alone (its own body and what it calls), the target can only be
+	// an object that function allocates - whatever its callers do. (The provider-wide analysis merges the instances
+	// of a helper's allocations over all its callers: getMetadata blanks the values of an Attributes object it has
+	// just built, GetSAML also serves objects that carry values handed in by storage.)
+	localOnly := func(fn *ssa.Function, addr ssa.Value) bool {
+		root := fn
+		for root.Parent() != nil {
+			root = root.Parent()
+		}
+		lvf := cx.vflow(w.FuncKey(root))
+		if lvf == nil {
+			return false
+		}
+		ls := lvf.objLabels(addr, 0)
+		if len(ls) == 0 {
+			return false
+		}
+		for l := range ls {
+			switch {
+			case strings.HasPrefix(l, "alloc:"):
+				base, _ := splitAllocLabel(l)
+				if !strings.HasSuffix(base, "@make") && lvf.allocByLabel(base) == nil {
+					return false
+				}
+			case strings.HasPrefix(l, "const:"), strings.HasPrefix(l, "via:"), strings.HasPrefix(l, "expr:"):
+			default:
+				return false
+			}
+		}
+		return true
 	}
 	nStores := 0
 	for _, fn := range fns {
@@ -125,6 +161,31 @@ func checkC15(cx *Ctx, r *Report) {
 				case ssa.CallInstruction:
 					// mutating calls on shared containers
 					n := calleeName(x)
+					if mutatesArg0[n] && len(x.Common().Args) > 0 {
+						nStores++
+						bad := ""
+						for l := range vf.objLabels(x.Common().Args[0], 0) {
+							if sh, why := classify(l); sh {
+								bad = why
+							}
+						}
+						key := w.FuncKey(fn) + ":" + shortCallee(n) + "(" + fx.T(fx.path(x.Common().Args[0])) + ")"
+						if bad != "" {
+							r.Fail("R-EFFECT", key, w.InstrPos(x), fmt.Sprintf("%s re-arranges / overwrites in place %s: concurrent requests share it", shortCallee(n), bad))
+						} else {
+							r.Ok("R-EFFECT", key, w.InstrPos(x), "in-place operation on an object of this request")
+						}
+					}
+					if n == "builtin:append" && len(x.Common().Args) > 0 {
+						// append into a re-slice (x[:0], x[:k]) writes into x's backing array
+						for _, rs := range reslicesOf(x.Common().Args[0], map[ssa.Value]bool{}) {
+							for l := range vf.objLabels(rs.X, 0) {
+								if sh, why := classify(l); sh {
+									r.Fail("R-EFFECT", w.FuncKey(fn)+":append-into-reslice", w.InstrPos(x), "append into a re-slice of "+why+" overwrites its elements: concurrent requests share it")
+								}
+							}
+						}
+					}
 					if strings.HasPrefix(n, "(*sync.Map).") || strings.HasPrefix(n, "(*sync.Pool).") {
 						m := n[strings.LastIndex(n, ".")+1:]
 						switch m {
@@ -170,6 +231,9 @@ func checkC15(cx *Ctx, r *Report) {
 					if sh, why := classify(l); sh {
 						bad = why
 					}
+				}
+				if bad != "" && localOnly(fn, addr) {
+					bad = ""
 				}
 				if bad != "" {
 					r.Fail("R-EFFECT", key, w.InstrPos(in), fmt.Sprintf("%s in per-request code targets %s: concurrent requests share it", what, bad))
@@ -463,6 +527,38 @@ func (cx *Ctx) directNewIDCalls(vf *VFlow, v ssa.Value, nid *ssa.Function, depth
 			out = append(out, sub...)
 		}
 		return out
+	}
+	return nil
+}
+
+// mutatesArg0: library functions that re-arrange or overwrite their first argument in place.
+var mutatesArg0 = map[string]bool{
+	"sort.Slice": true, "sort.SliceStable": true, "sort.Sort": true, "sort.Stable": true, "sort.Strings": true, "sort.Ints": true, "sort.Float64s": true,
+	"slices.Sort": true, "slices.SortFunc": true, "slices.SortStableFunc": true, "slices.Reverse": true, "builtin:copy": true, "builtin:clear": true,
+	"math/rand.Shuffle": false,
+}
+
+// reslicesOf: the re-slice expressions (x[:k]) the slice value v may be, looking through phis and appends.
+func reslicesOf(v ssa.Value, seen map[ssa.Value]bool) []*ssa.Slice {
+	if seen[v] {
+		return nil
+	}
+	seen[v] = true
+	switch x := v.(type) {
+	case *ssa.Slice:
+		if _, isSlice := x.X.Type().Underlying().(*types.Slice); isSlice && (x.High != nil || x.Low != nil) {
+			return []*ssa.Slice{x}
+		}
+	case *ssa.Phi:
+		var out []*ssa.Slice
+		for _, e := range x.Edges {
+			out = append(out, reslicesOf(e, seen)...)
+		}
+		return out
+	case *ssa.Call:
+		if b, ok := x.Call.Value.(*ssa.Builtin); ok && b.Name() == "append" && len(x.Call.Args) > 0 {
+			return reslicesOf(x.Call.Args[0], seen)
+		}
 	}
 	return nil
 }
